@@ -169,7 +169,10 @@ def intervals(draw, max_logratio=8.6, allow_special=True, extreme=False):
                                 else ["general"]))
     if kind == "special":
         return draw(st.sampled_from([(-1.0, 1.0), (0.0, 1.0), (-1.0, 0.0), (1.0, -1.0), (-3.0, -2.0),
-                                     (0.0, 1e-9), (-1e9, 1e9), (2.0, 5.0), (1.0, 0.0), (-0.5, 0.25)]))
+                                     (0.0, 1e-9), (-1e9, 1e9), (2.0, 5.0), (1.0, 0.0), (-0.5, 0.25),
+                                     # width exactly 2 (the scale factor of the map from [-1,1] is exactly 1) and
+                                     # exactly 1, away from the origin
+                                     (0.0, 2.0), (1.0, 3.0), (-3.0, -1.0), (2.0, 0.0), (5.0, 7.0), (3.0, 4.0)]))
     # widths over 18 decades; one interval in five much narrower or wider still ("tiny and huge widths": the rule
     # is scale-free, an absolute threshold on the width has no business in it)
     width = 10.0 ** draw(st.one_of(st.floats(-9, 9), st.floats(-9, 9), st.floats(-9, 9), st.floats(-9, 9),
@@ -393,6 +396,9 @@ def func_cases(draw):
     a, b = draw(intervals(max_logratio=1.95))
     return {"n": n, "a": a, "b": b, "f": draw(integrand(a, b)),
             "range": draw(st.sampled_from(["list", "tuple", "array"])),
+            # what the integrand hands back: a fresh float64 array, an array it keeps (a memoising integrand), or
+            # an integer / boolean array (an indicator or counting function)
+            "ret": draw(st.sampled_from(["fresh", "fresh", "fresh", "memo", "int-const", "bool-const"])),
             "call": draw(st.sampled_from(["integrate", "integrate_func", "qgauss", "method", "npts-in-call"]))}
 
 
@@ -400,19 +406,41 @@ def check_func(case, ctx):
     import esutil.integrate as ei
     n, a, b = case["n"], case["a"], case["b"]
     f = _make_f(case["f"])
+    ret = case.get("ret", "fresh")
+    if ret in ("int-const", "bool-const"):
+        m = 1 if ret == "bool-const" else int(round(case["f"]["k"]))
+
+        def f(x):           # noqa: F811 - an indicator / counting function: integer or boolean values
+            if x.dtype == np.float64:
+                return np.ones(x.shape, dtype=bool) if ret == "bool-const" else np.full(x.shape, m, dtype="i8")
+            return x.dtype.type(m) + 0 * x
+    g = f
+    memo = {}
+    if ret == "memo":
+        def g(x):           # an integrand that remembers what it computed and hands the same array back
+            key = np.asarray(x).tobytes()
+            if key not in memo:
+                memo[key] = np.asarray(f(x))
+            return memo[key]
     rng = _range_arg(a, b, case["range"])
     call = case["call"]
-    if call == "integrate":
-        got = must(must(ei.QGauss, n).integrate, rng, f)
-    elif call == "integrate_func":
-        got = must(must(ei.QGauss, n).integrate_func, rng, f)
-    elif call == "qgauss":
-        got = must(ei.qgauss, rng, f, n)
-    elif call == "method":
-        got = must(must(ei.QGauss, n).integrate, rng, _Holder(f).method)
-    else:
-        got = must(must(ei.QGauss).integrate, rng, f, npts=n)
+
+    def run():
+        if call == "integrate":
+            return must(must(ei.QGauss, n).integrate, rng, g)
+        if call == "integrate_func":
+            return must(must(ei.QGauss, n).integrate_func, rng, g)
+        if call == "qgauss":
+            return must(ei.qgauss, rng, g, n)
+        if call == "method":
+            return must(must(ei.QGauss, n).integrate, rng, _Holder(g).method)
+        return must(must(ei.QGauss).integrate, rng, g, npts=n)
+    got = run()
     require(np.ndim(got) == 0, "integrate returned a non-scalar %r", type(got))
+    if ret == "memo":
+        again = run()
+        require(float(again) == float(got), "%s with an integrand that returns the array it keeps: the second identical "
+                "call gives %r, the first gave %r (the integrand's array was altered)", call, float(again), float(got))
     ref, ymax = _ref_func_integral(n, a, b, f)
     tol = 1e-9 * abs(b - a) * ymax + FLOOR
     err = float(abs(LD(got) - ref))
@@ -422,7 +450,8 @@ def check_func(case, ctx):
 
 
 def classify_func(case):
-    return _interval_labels(case["a"], case["b"], case["n"]) + ["family:" + case["f"]["name"], "call:" + case["call"]]
+    return _interval_labels(case["a"], case["b"], case["n"]) + ["family:" + case["f"]["name"], "call:" + case["call"],
+                                                                 "integrand-returns:" + case.get("ret", "fresh")]
 
 
 # --------------------------------------------------------------------------- sub-check: data
@@ -635,9 +664,19 @@ def gauss2d_cases(draw):
     ny = nx if draw(st.integers(0, 3)) == 0 else draw(st.one_of(st.integers(1, 40), N_SMALL))
     ax, bx = draw(intervals(max_logratio=1.95))
     ay, by = draw(intervals(max_logratio=1.95))
-    return {"nx": nx, "ny": ny, "xr": [ax, bx], "yr": [ay, by],
+    case = {"nx": nx, "ny": ny, "xr": [ax, bx], "yr": [ay, by],
             "f": {"name": draw(st.sampled_from(FAMILIES2)), "k": draw(st.floats(-8, 8)), "q": draw(st.floats(-8, 8))},
             "range": draw(st.sampled_from(["list", "tuple", "array"]))}
+    if draw(st.booleans()):
+        # further calls on the same QGauss2 object, over other rectangles (or the same one again)
+        more = []
+        for _ in range(draw(st.integers(1, 2))):
+            if draw(st.integers(0, 3)) == 0:
+                more.append([[ax, bx], [ay, by]])
+            else:
+                more.append([list(draw(intervals(max_logratio=1.95))), list(draw(intervals(max_logratio=1.95)))])
+        case["more"] = more
+    return case
 
 
 def check_gauss2d(case, ctx):
@@ -653,21 +692,28 @@ def check_gauss2d(case, ctx):
     def spy(x, y):
         shapes.append((np.shape(x), np.shape(y)))
         return f(x, y)
-    got = must(qg.integrate_func, _range_arg(ax, bx, case["range"]), _range_arg(ay, by, case["range"]), spy)
-    require(np.ndim(got) == 0, "QGauss2.integrate_func returned a non-scalar %r", type(got))
-    require(len(shapes) == 1 and shapes[0][0] == shapes[0][1] and int(np.prod(shapes[0][0])) == nx * ny,
-            "the integrand was called with grids of shapes %r for nx=%d ny=%d", shapes, nx, ny)
-    xr, wx = mapped_ref(nx, ax, bx)
-    yr, wy = mapped_ref(ny, ay, by)
-    z = f(xr[np.newaxis, :] + 0 * yr[:, np.newaxis], yr[:, np.newaxis] + 0 * xr[np.newaxis, :])
-    ref = (z * wx[np.newaxis, :] * wy[:, np.newaxis]).sum()
-    gx, gy = LD(ax) + (LD(bx) - LD(ax)) * _GRID[::4], LD(ay) + (LD(by) - LD(ay)) * _GRID[::4]
-    zg = f(gx[np.newaxis, :] + 0 * gy[:, np.newaxis], gy[:, np.newaxis] + 0 * gx[np.newaxis, :])
-    tol = 1e-9 * abs(bx - ax) * abs(by - ay) * max(float(np.max(np.abs(z))), float(np.max(np.abs(zg)))) + FLOOR
-    err = float(abs(LD(got) - ref))
-    require(err <= tol, "QGauss2(%d,%d).integrate_func(%s) = %r, tensor-product reference %r (diff %.3g > %.3g)",
-            nx, ny, sp["name"], float(got), float(ref), err, tol)
-    _bucket(ctx, "err/tol", err, tol)
+    rects = [[[ax, bx], [ay, by]]] + [r for r in case.get("more", [])]
+    for k, ((ax, bx), (ay, by)) in enumerate(rects):
+        del shapes[:]
+        # the integrand of each call lives on that call's rectangle (same family and parameters, rescaled)
+        f = _family2(sp["name"], sp["k"], sp["q"], (ax + bx) / 2, abs(bx - ax) / 2, (ay + by) / 2, abs(by - ay) / 2)
+        got = must(qg.integrate_func, _range_arg(ax, bx, case["range"]), _range_arg(ay, by, case["range"]), spy)
+        what = "QGauss2(%d,%d).integrate_func(%s) over [%r,%r]x[%r,%r]%s" % (
+            nx, ny, sp["name"], ax, bx, ay, by, "" if k == 0 else " (call %d on the same object)" % (k + 1))
+        require(np.ndim(got) == 0, "%s returned a non-scalar %r", what, type(got))
+        require(len(shapes) == 1 and shapes[0][0] == shapes[0][1] and int(np.prod(shapes[0][0])) == nx * ny,
+                "%s: the integrand was called with grids of shapes %r", what, shapes)
+        xr, wx = mapped_ref(nx, ax, bx)
+        yr, wy = mapped_ref(ny, ay, by)
+        z = f(xr[np.newaxis, :] + 0 * yr[:, np.newaxis], yr[:, np.newaxis] + 0 * xr[np.newaxis, :])
+        ref = (z * wx[np.newaxis, :] * wy[:, np.newaxis]).sum()
+        gx, gy = LD(ax) + (LD(bx) - LD(ax)) * _GRID[::4], LD(ay) + (LD(by) - LD(ay)) * _GRID[::4]
+        zg = f(gx[np.newaxis, :] + 0 * gy[:, np.newaxis], gy[:, np.newaxis] + 0 * gx[np.newaxis, :])
+        tol = 1e-9 * abs(bx - ax) * abs(by - ay) * max(float(np.max(np.abs(z))), float(np.max(np.abs(zg)))) + FLOOR
+        err = float(abs(LD(got) - ref))
+        require(err <= tol, "%s = %r, tensor-product reference %r (diff %.3g > %.3g)", what, float(got), float(ref),
+                err, tol)
+        _bucket(ctx, "err/tol", err, tol)
 
 
 def classify_gauss2d(case):
@@ -678,6 +724,10 @@ def classify_gauss2d(case):
         labs.append("reversed-range")
     if 1 in (nx, ny):
         labs.append("one-point-axis")
+    if case.get("more"):
+        labs.append("further-calls-on-same-object:%d" % len(case["more"]))
+    if any(abs(abs(r[1] - r[0]) - 2.0) == 0 and r[0] + r[1] != 0 for r in (case["xr"], case["yr"])):
+        labs.append("width-exactly-2-off-centre")
     if nx != ny or not unit:
         labs.append("nt:nx!=ny-or-non-unit")
     return labs
